@@ -30,6 +30,7 @@ ASSUMPTIONS = [
     "codecs, open() and the file system are parameters of the Lean model (Props.C16 holds for every codec with dec(enc s) = s); their real behaviour is what this check observes",
 ]
 TRUSTED = ["Python codecs, open(), the OS file system"]
+NOT_THEOREMS = ['codec law dec(enc s) = s, open() modes, newline handling, the path/content decision of os.path.isfile: observed on a scratch directory']
 EXHAUSTIVE = {"quick": False, "thorough": False}
 ENCODINGS = ["utf-8", "latin-1", "cp1252", "utf-16"]
 
